@@ -17,6 +17,8 @@ struct Entry {
     origin: Origin,
     born_op: u32,
     dropped_op: u32,
+    /// false for values of a type without a destructor: they have an identity, but their end is unobservable.
+    tracked: bool,
 }
 
 pub const NTYPES: usize = 32;
@@ -90,10 +92,20 @@ pub fn set_op(op: u32) {
 pub fn create(type_ix: u8, origin: Origin) -> u64 {
     with(|l| {
         let op = l.cur_op;
-        l.entries.push(Entry { type_ix, live: true, origin, born_op: op, dropped_op: 0 });
+        l.entries.push(Entry { type_ix, live: true, origin, born_op: op, dropped_op: 0, tracked: true });
         l.live_count += 1;
         l.live_by_type[type_ix as usize] += 1;
         l.created_total += 1;
+        l.entries.len() as u64
+    })
+}
+
+/// A value of a type without a destructor: it gets an identity (so that sharing one value object
+/// between two owners is visible) but does not take part in the live/dropped balance.
+pub fn create_untracked(type_ix: u8, origin: Origin) -> u64 {
+    with(|l| {
+        let op = l.cur_op;
+        l.entries.push(Entry { type_ix, live: true, origin, born_op: op, dropped_op: 0, tracked: false });
         l.entries.len() as u64
     })
 }
@@ -199,7 +211,7 @@ pub fn live_serials() -> Vec<(u64, u8)> {
         l.entries
             .iter()
             .enumerate()
-            .filter(|(_, e)| e.live)
+            .filter(|(_, e)| e.live && e.tracked)
             .map(|(i, e)| (i as u64 + 1, e.type_ix))
             .collect()
     })
